@@ -313,6 +313,10 @@ theorem step_grow {s : State} (hi : Inv' s) (op : Op) : StepGrow s op := by
           have e := ep _ _ hr
           apply StepGrow.of_grow; rw [e]
           exact (Grow.refl s.mem).same_blocks _ _
+        | noAlloc n hal =>
+          have e := ep _ _ hr
+          apply StepGrow.of_grow; rw [e]
+          exact (Grow.refl s.mem).same_blocks _ _
         | thinMismatch lay n1 hw hn hal =>
           have e := ep _ _ hr
           apply StepGrow.of_grow; rw [e]
